@@ -57,6 +57,25 @@ class _Fake:
   current_point = None
 
 
+class _Live:
+  """the stub optimiser's objective: the scripted runs decide the outcomes, but every point the real MultistartOptimizer loop assigns is ALSO handed - the
+  same array object, as in the real flow - to the real likelihood object, whose setter must leave the caller's row as it is (a setter writing into it
+  changes the start the loop falls back to: C11_m14)"""
+  def __init__(self, real):
+    self._real, self._p = real, None
+
+  def _get(self):
+    return self._p
+
+  def _set(self, p):
+    self._p = p
+    try:
+      self._real.current_point = p
+    except Exception:  # noqa: BLE001 - whether the real object can be fitted there is not what the scripts are about
+      pass
+  current_point = property(_get, _set)
+
+
 def run_endpoint(inp, scripts=None):
   """One GpHyperOptMultimetricView(params).view() call.  scripts = None: the real SLSQP; otherwise scripts[k][j] describes
   what the j-th inner run of the k-th fit leaves behind (dict raised/success/fun/end) and the real MultistartOptimizer loop
@@ -83,7 +102,7 @@ def run_endpoint(inp, scripts=None):
     def __init__(self, domain, optimizable, parameters):
       k = len(log)
       self.rec = record(domain, optimizable)
-      self.domain, self.objective_function, self.optimization_results = domain, _Fake(), None
+      self.domain, self.objective_function, self.optimization_results = domain, _Live(optimizable), None
       self.script, self.j = (scripts[k] if k < len(scripts) else []), 0
 
     @property
